@@ -56,6 +56,20 @@ SIGMA_FULL = [
     '\\"\\"\\"\n',
     '  \\`\\`\\` x\n',
 ]
+# lines whose shortcut needs one more coincidence (end of input, a carriage return that ends nothing, a keyword without its colon);
+# explored as every word of length <= 2 over FULL + RARE that contains at least one of them
+SIGMA_RARE = [
+    '    Examples\n',
+    '  Rule\n',
+    'Scenario:s\n',
+    '  EOF\n',
+    '# c\rmore\n',
+    ' \r  Scenario: s2\n',
+    '    Given a\rb \r\n',
+    '  @r1 \r @r2\n',
+    '      | a\r | b |\n',
+    '  @t1 #@t2 x\n',
+]
 SIGMA_CORE = [
     '\n',
     '# c\n',
@@ -150,6 +164,8 @@ def level_jobs(mod, sigma_name, k):
     pre = prefixes()
     sigma = SIGMA_FULL if sigma_name == 'full' else SIGMA_CORE
     jobs = []
+    if sigma_name == 'rare':
+        return [job_rare.job(mod, pi, k) for pi in range(len(pre))]
     for pi in range(len(pre)):
         if k <= 1:
             jobs.append(job_exact.job(mod, pi, sigma_name, None, k))
@@ -180,9 +196,31 @@ def job_exact(module, pi, sigma_name, li, k):
     return acc
 
 
+@worker
+def job_rare(module, pi, k):
+    """Every word of length 1..k over FULL + RARE with at least one RARE line, after one prefix; with and without the final newline."""
+    import importlib
+    mod = importlib.import_module(module)
+    acc = Acc()
+    pre = prefixes()[pi]
+    both = SIGMA_FULL + SIGMA_RARE
+    rare = set(SIGMA_RARE)
+    t = pre
+    for n in range(1, k + 1):
+        for seq in itertools.product(both, repeat=n):
+            if not rare.intersection(seq):
+                continue
+            t = pre + ''.join(seq)
+            mod.check_text(t, acc)
+            mod.check_text(t[:-1], acc)
+    acc.sample({'text': t})
+    return acc
+
+
 def run_levels(ctx, mod, k_full, k_core):
     """Iterated bounds: all words of length 0, 1, ..., k_full over the full alphabet, then lengths up to k_core over the core."""
     for k in range(0, k_full + 1):
         ctx.level('full-alphabet K=%d' % k, level_jobs(mod, 'full', k))
+    ctx.level('rare-line alphabet K<=2', level_jobs(mod, 'rare', 2))
     for k in range(k_full + 1, k_core + 1):
         ctx.level('core-alphabet K=%d' % k, level_jobs(mod, 'core', k))
